@@ -1,4 +1,6 @@
 import MJ.Model.Kernels
+import MJ.Model.IntOps
+import MJ.Model.ReprStr
 import MJ.Model.Stk
 import MJ.Model.Nesting
 /-! Line driver for C01: `k <kernel> <args…>` case lines (as `harness/src/bin/c01.rs` names them) →
@@ -47,6 +49,10 @@ def fmtModel (style : String) (w : Int) : String :=
     showRes toString (fmtWidthK n 1)
   else if style = "pp" ∨ style = "sp" then
     showRes (fun (p : Nat) => toString (if p = 0 then 1 else p + 2)) (fmtPrecisionK n 0)
+  else if style = "ph" ∨ style = "sh" then
+    -- %g of 0.0001234 (exponent -4: the three extra digits are really requested): "0.0001", "0.00012", …
+    -- (the kernel returns precision + 3; from ~63 significant digits on the binary expansion is exhausted: 67 bytes)
+    showRes (fun (a : Nat) => if a ≤ 4 then "6" else if a = 5 then "7" else if a = 6 then "8" else if a ≤ 18 then "9" else if 70 ≤ a then "67" else "?") (fmtPrecisionK n 3)
   else
     -- %g of 1.5: "2" for precision 0 and 1, "1.5" above; up to three extra digits are requested
     showRes (fun (p : Nat) => if p ≤ 4 then "1" else "3") (fmtPrecisionK n 3)
@@ -180,6 +186,30 @@ def handle (case : String) : String :=
   | ["k", "cycle", n, argc] =>
     match n.toNat?, argc.toNat? with
     | some n, some argc => modelCycle n argc
+    | _, _ => "bad-case"
+  | ["k", "reprstr", cps] =>
+    let cs : List Char := if cps = "_" then [] else (cps.splitOn ",").filterMap (fun t => t.toNat?.map Char.ofNat)
+    match MJ.ReprStr.reprOut cs with
+    | .ok n => s!"ok:{n}"
+    | .panic => "panic"
+  | ["k", "intop", op, a, b] =>
+    match a.toInt?, b.toInt? with
+    | some a, some b =>
+      let r : Option (Chk MJ.IntOps.R) := match op with
+        | "add" => some (MJ.IntOps.binK .add a b)
+        | "sub" => some (MJ.IntOps.binK .sub a b)
+        | "mul" => some (MJ.IntOps.binK .mul a b)
+        | "rem" => some (MJ.IntOps.binK .rem a b)
+        | "intdiv" => some (MJ.IntOps.binK .intDiv a b)
+        | "pow" => some (MJ.IntOps.binK .pow a b)
+        | "neg" => some (MJ.IntOps.negK a)
+        | "abs" => some (MJ.IntOps.absK a)
+        | _ => none
+      match r with
+      | some (.ok (.val v)) => s!"ok:{v}"
+      | some (.ok .err) => "err"
+      | some .panic => "panic"
+      | none => "bad-case"
     | _, _ => "bad-case"
   | ["k", "mulstr", l, n, _side] =>
     match l.toNat?, n.toInt? with
